@@ -638,6 +638,112 @@ def run(ctx):
         for i in bad:
             ctx.mismatch("C14.Model.%s vs normal_form_game.%s" % (name, what), meta[i])
 
+    # ============================================================ 2b. explicit tolerances x near ties (oracle only)
+    # payoffs that differ by 0, 1e-9, 5e-9, 1e-8, 2e-8 (exact binary64 values) and tolerances given explicitly, including
+    # the exact tolerances 0 and 0.0: the verdict must use the tolerance actually passed
+    DELTAS = [0.0, 1e-9, 5e-9, 1e-8, 2e-8, 0.0, 1.0]
+    TOLS = [0, 0.0, 1e-12, 1e-8, 1e-3, None]
+    EPS_B = Fraction(1, 10**15)
+
+    def tolq(t):
+        return TOL if t is None else frac(t)
+
+    def within(vals, k, tq):
+        """exact verdict 'vals[k] >= max - tol', None when it is within rounding of the threshold"""
+        gap = vals[k] - (max(vals) - tq)
+        return None if (gap != 0 and abs(gap) < EPS_B) else gap >= 0
+    for it in range(60 if thorough else 24):
+        N = rng.choice([1, 2, 2, 3])
+        nums = [rng.randrange(2, 5)] + [rng.randrange(1, 4) for _ in range(N - 1)]
+        base = rng.choice([0.0, 0.0, 1.0, -2.0])
+        data = np.array([base - rng.choice(DELTAS) for _ in range(int(np.prod(nums)) * N)]).reshape(tuple(nums) + (N,))
+        g = NormalFormGame(data)
+        GA = game_arrays(g)
+        ctx.count("near_tie_game:N=%d" % N)
+        for i, p in enumerate(g.players):
+            others = [(i + 1 + j) % N for j in range(N - 1)]
+            for opp in itertools.product(*[range(nums[pl]) for pl in others]):
+                arg = None if N == 1 else (opp[0] if N == 2 else opp)
+                vals = exp_payoffs(data, N, nums, i, opp)
+                for tolv in TOLS:
+                    tq = tolq(tolv)
+                    verd = [within(vals, k, tq) for k in range(nums[i])]
+                    if None in verd:
+                        ctx.count("near_tie:borderline (skipped)")
+                        continue
+                    ebrs = [k for k in range(nums[i]) if verd[k]]
+                    info = {"data": data, "player": i, "opponents": opp, "tol": repr(tolv)}
+                    ctx.case(("near_tie_br", it, i, opp, repr(tolv)), nontrivial=(len(set(vals)) > 1))
+                    ctx.count("near_tie_tol:%r" % (tolv,))
+                    try:
+                        brs = nat_vec(W.call("Player.best_response(tie_breaking=False)", GA, lambda: p.best_response(arg, tie_breaking=False, tol=tolv)), nums[i])
+                        br = nat_in(W.call("Player.best_response", GA, lambda: p.best_response(arg, tol=tolv)), nums[i])
+                        ibr = [bool(W.call("Player.is_best_response", GA, lambda: p.is_best_response(k, arg, tol=tolv))) for k in range(nums[i])]
+                    except Exception as e:
+                        ctx.fail("raises", "best_response / is_best_response raised or returned a malformed value: %r" % (e,), info, repr(e), ebrs)
+                        continue
+                    if brs != ebrs or br != ebrs[0]:
+                        ctx.fail("best_response_tolerance", "best_response(s) with an explicit tolerance and nearly tied payoffs differ from the definition with the tolerance passed",
+                                 info, [brs, br], ebrs)
+                    if ibr != [bool(v) for v in verd]:
+                        ctx.fail("is_best_response_tolerance", "is_best_response with an explicit tolerance and nearly tied payoffs differs from the definition", info, ibr, verd)
+        for prof in itertools.product(*[range(k) for k in nums]):
+            for tolv in TOLS:
+                tq = tolq(tolv)
+                er = True
+                for i in range(N):
+                    opp = tuple(prof[(i + 1 + j) % N] for j in range(N - 1))
+                    v = within(exp_payoffs(data, N, nums, i, opp), prof[i], tq)
+                    er = None if (v is None or er is None) else (er and v)
+                if er is None:
+                    continue
+                try:
+                    r = bool(W.call("NormalFormGame.is_nash", GA, lambda: g.is_nash(prof, tol=tolv)))
+                except Exception as e:
+                    ctx.fail("raises", "is_nash raised: %r" % (e,), {"data": data, "profile": prof, "tol": repr(tolv)}, repr(e), er)
+                    continue
+                ctx.case(("near_tie_nash", it, prof, repr(tolv)), nontrivial=(N >= 2))
+                if r != er:
+                    ctx.fail("is_nash_tolerance", "is_nash with an explicit tolerance and nearly tied payoffs differs from the definition with the tolerance passed",
+                             {"data": data, "profile": prof, "tol": repr(tolv)}, r, er)
+    # domination margins 0, 1e-9, 5e-9, 1e-8, 2e-8: action 0 is beaten by action 1 by exactly delta against every opponent
+    # profile, every further action is worse by at least 1 (so the value of the difference game is exactly delta)
+    for it in range(40 if thorough else 16):
+        nopp = rng.choice([0, 1, 1, 2])
+        n0 = rng.randrange(2, 5)
+        oshp = tuple(rng.randrange(1, 4) for _ in range(nopp))
+        delta = rng.choice([0.0, 1e-9, 5e-9, 1e-8, 2e-8])
+        row0 = np.array([rng.randrange(-3, 4) for _ in range(int(np.prod(oshp)))], dtype=float).reshape(oshp) if nopp else np.array(float(rng.randrange(-3, 4)))
+        if rng.random() < 0.5:
+            row0 = row0 * 0.0
+        rows_ = [row0, row0 + delta] + [row0 - rng.randrange(1, 4) for _ in range(n0 - 2)]
+        P = np.stack(rows_, axis=0)
+        marg = min(frac(x) - frac(y) for x, y in zip(np.ravel(P[1]).tolist(), np.ravel(P[0]).tolist()))
+        mx = max(frac(x) - frac(y) for x, y in zip(np.ravel(P[1]).tolist(), np.ravel(P[0]).tolist()))
+        pl = Player(P)
+        for tolv in TOLS:
+            tq = tolq(tolv)
+            if marg != tq and abs(marg - tq) < Fraction(1, 10**12):
+                ctx.count("near_margin:borderline (skipped)")
+                continue
+            exp0 = marg > tq
+            for method in (None, "highs"):
+                try:
+                    with warnings.catch_warnings():
+                        warnings.simplefilter("ignore")
+                        r0 = bool(W.call("Player.is_dominated", [pl.payoff_array], lambda: pl.is_dominated(0, tol=tolv, method=method)))
+                        da = [int(a) for a in W.call("Player.dominated_actions", [pl.payoff_array], lambda: pl.dominated_actions(tol=tolv, method=method))]
+                except Exception as e:
+                    ctx.fail("raises", "is_dominated / dominated_actions raised: %r" % (e,), {"payoff_array": P, "tol": repr(tolv), "method": method}, repr(e), exp0)
+                    continue
+                ctx.case(("near_margin", it, repr(tolv), method), nontrivial=(nopp >= 1))
+                ctx.count("near_margin:%s" % ("dominated" if exp0 else "not dominated"))
+                if method == "highs" and 0 < marg <= Fraction(1, 10**7) and tq < marg:
+                    continue    # HiGHS' own feasibility tolerance (1e-7) exceeds these margins: only the minmax route is judged
+                if r0 != exp0 or ((0 in da) != exp0):
+                    ctx.fail("is_dominated_tolerance", "is_dominated / dominated_actions with an explicit tolerance and a domination margin near it differ from the definition with the tolerance passed",
+                             {"payoff_array": P, "action": 0, "tol": repr(tolv), "method": method, "margin": float(marg)}, [r0, da], exp0)
+
     # ---- Player.random_choice(actions): a member of `actions` (also when they are not the leading block)
     for _ in range(60 if thorough else 25):
         n = rng.randrange(2, 6)
